@@ -111,6 +111,17 @@ def run(case, ctx, rng):
             d = rng.randbytes(rng.choice([1, 1, 2, 5, 40]))
             ctx.eq('crc-generic==bitwise', call(C.crc, d, T, init, final), bitwise_crc(P, w, d, init, final), P=P, width=w, init=init, final=final, data=d, call_no=i, table='reused')
         ctx.check('table-unchanged', [(int(e.ival), e.size) for e in T] == snap and (PB.ival, PB.size) == (P, w), 'table or polynomial modified by crc()', 'unchanged', P=P, width=w)
+        # the polynomial object belongs to the caller: refilled for a second table, then scrubbed; both tables stay what they were
+        P2 = rng.getrandbits(w) | (1 << (w - 1))
+        PB.ival = P2
+        T2 = call(C.crc_table, PB)
+        PB.ival = 0
+        for d in (bytes([0x80]), bytes(range(0x7c, 0x84)), rng.randbytes(40), bytes([0x80, 0x01, 0x80])):
+            init = rng.getrandbits(w); final = _val(rng, case['final'], w)
+            ctx.eq('crc-generic==bitwise', call(C.crc, d, T, init, final), bitwise_crc(P, w, d, init, final), P=P, width=w, init=init, final=final, data=d, table='built before the caller refilled the polynomial object')
+            if not is_exc(T2):
+                ctx.eq('crc-generic==bitwise', call(C.crc, d, T2, init, final), bitwise_crc(P2, w, d, init, final), P=P2, width=w, init=init, final=final, data=d, table='built from the refilled polynomial object')
+        ctx.check('table-unchanged', [(int(e.ival), e.size) for e in T] == snap, 'table changed when the caller changed its polynomial object', 'unchanged', P=P, width=w)
     elif k == 'fix':
         d = pattern(rng, case['n'], case['pat'])
         t = _target(rng, case['target'])
